@@ -145,16 +145,19 @@ CHECKS = {
             "only observed through the watchdog."),
     "C07": (True,
             "Theorems: the codec dispatch is case-insensitive, an unsupported extension yields the invalid-extension error for reading "
-            "and writing, .ts is read-only, an empty list yields nothing-to-write (SubRip model). The 7x6 conversion matrix is decided on "
+            "and writing, .ts is read-only, an empty list yields nothing-to-write; for ALL representable documents the SubRip -> WebVTT "
+            "and WebVTT -> SubRip conversions (composition of the codec models through the conversion of Model/Conv.v, whose bytes are "
+            "compared with the library's on every generated styled document) give a destination that reads back with the same number "
+            "of cues, in order, times truncated to the millisecond and the same text per line. The 7x6 conversion matrix is decided on "
             "the implementation: sources rendered by the harness's own encoders (SubRip renderer, minimal WebVTT/SSA/TTML renderers, an "
             "EBU STL encoder for display standards 0/1/2, a teletext-in-TS encoder through the astits muxer) from ground-truth cue lists, "
             "0..4 operations with random parameters through the library and one through the built CLI binary, the destination re-read and "
             "compared (count, order, times truncated to the destination unit, text without white space) with the composed reference "
             "semantics of the operations; extension dispatch compared with the extracted model.",
-            "Rocq proof of the dispatch model (partial) + conversion matrix through file API and CLI on the implementation",
-            "partial: the pairwise write/read theorems need the WebVTT/SSA/TTML/STL/teletext codec models, which do not exist yet "
-            "(SubRip: C01); texts are plain Latin words; styled and metadata-bearing sources are exercised by C08/C19 for panics and "
-            "determinism only."),
+            "Rocq proof of the dispatch model and of the SubRip/WebVTT conversions (partial) + conversion matrix through file API and CLI on the implementation",
+            "partial: the pairwise theorems exist for the SubRip/WebVTT pairs only (the other codec models are being built); coloured "
+            "runs are outside the WebVTT representability predicate; in the matrix texts are plain Latin words (styled SubRip/WebVTT sources "
+            "in the model comparison); metadata-bearing sources are exercised by C08/C19 for panics and determinism only."),
     "C20": (True,
             "Theorems: (i) frame property - in an interleaving semantics where steps only read the shared store, every thread ends, under "
             "ANY schedule, in the state it reaches alone; (ii) instance - the write-effect summary regenerated on every run from the go/ssa "
